@@ -297,7 +297,7 @@ func c8Compile(c *eval.Config, src string) (e *eval.Expr, err error) {
 
 func c08(r *rep.Run) {
 	depth := 3
-	r.SetBudget(120e9)
+	r.SetBudget(300e9)
 	if r.Thorough() {
 		depth = 4
 		r.SetBudget(1800e9)
